@@ -22,6 +22,7 @@ import (
 	"go/token"
 	"os"
 	"path/filepath"
+	"reflect"
 	"sort"
 	"strconv"
 	"strings"
@@ -271,6 +272,7 @@ func main() {
 	declare("metadataRetryIntervalSec", "Int", "0")
 	declare("initializeMetadataLoops", "Bool", "false")
 	declare("initWaitSec", "Int", "0")
+	declare("metadataRequired", "List String", `["?"]`) // the JSON members a discovery answer must carry non-empty for fetchMetadata to return it (else it returns an error)
 	declare("poolPutCount", "Nat", "0")
 	declare("poolPutOnlyBeforeNilReturn", "Bool", "false")
 	declare("nestedLockCalls", "List String", `["?"]`)   // Type.Method->Callee: a call, made while a lock of the receiver is held, to a method of the same receiver that acquires one
@@ -1300,6 +1302,88 @@ func main() {
 			})
 			return false
 		})
+	}
+
+	// ---- fetchMetadata: which members of the decoded document are required.  A top-level `if <c1> || <c2> ... { ...; return nil, err }`
+	// placed before the final return; only disjuncts of the form `<v>.<Field> == ""` (or len(<v>.<Field>) == 0) count, where <v> is the
+	// variable whose address the function returns; the field's json tag is what is recorded.
+	if f, ok := funcs["fetchMetadata"]; ok && f.decl.Body != nil {
+		tags := map[string]string{}
+		for _, pf := range parsed {
+			ast.Inspect(pf, func(n ast.Node) bool {
+				ts, ok := n.(*ast.TypeSpec)
+				if !ok || ts.Name.Name != "ProviderMetadata" {
+					return true
+				}
+				if st, ok := ts.Type.(*ast.StructType); ok {
+					for _, fl := range st.Fields.List {
+						if fl.Tag == nil {
+							continue
+						}
+						tag, _ := strconv.Unquote(fl.Tag.Value)
+						j := reflect.StructTag(tag).Get("json")
+						if i := strings.Index(j, ","); i >= 0 {
+							j = j[:i]
+						}
+						for _, nm := range fl.Names {
+							tags[nm.Name] = j
+						}
+					}
+				}
+				return false
+			})
+		}
+		stmts := f.decl.Body.List
+		retVar := ""
+		if len(stmts) > 0 {
+			if rs, ok := stmts[len(stmts)-1].(*ast.ReturnStmt); ok && len(rs.Results) == 2 && src(rs.Results[1]) == "nil" {
+				retVar = strings.TrimPrefix(src(rs.Results[0]), "&")
+			}
+		}
+		var req []string
+		var leaves func(e ast.Expr)
+		leaves = func(e ast.Expr) {
+			switch x := e.(type) {
+			case *ast.ParenExpr:
+				leaves(x.X)
+			case *ast.BinaryExpr:
+				if x.Op == token.LOR {
+					leaves(x.X)
+					leaves(x.Y)
+					return
+				}
+				if x.Op == token.EQL {
+					l, r := src(x.X), src(x.Y)
+					if l == `""` {
+						l, r = r, l
+					}
+					fld := ""
+					if r == `""` && strings.HasPrefix(l, retVar+".") {
+						fld = strings.TrimPrefix(l, retVar+".")
+					} else if r == "0" && strings.HasPrefix(l, "len("+retVar+".") && strings.HasSuffix(l, ")") {
+						fld = strings.TrimSuffix(strings.TrimPrefix(l, "len("+retVar+"."), ")")
+					}
+					if j, ok := tags[fld]; ok && j != "" {
+						req = append(req, j)
+					}
+				}
+			}
+		}
+		if retVar != "" {
+			for _, st := range stmts[:len(stmts)-1] {
+				is, ok := st.(*ast.IfStmt)
+				if !ok || is.Init != nil || is.Else != nil || len(is.Body.List) == 0 {
+					continue
+				}
+				rs, ok := is.Body.List[len(is.Body.List)-1].(*ast.ReturnStmt)
+				if !ok || len(rs.Results) != 2 || src(rs.Results[0]) != "nil" || src(rs.Results[1]) == "nil" {
+					continue
+				}
+				leaves(is.Cond)
+			}
+		}
+		sort.Strings(req)
+		set("metadataRequired", leanStrList(req), f.decl, "required members: "+strings.Join(req, ", "))
 	}
 
 	// no MaxLength call in NewSessionManager: the library's default ceiling applies
